@@ -214,10 +214,12 @@ RECIPES = {
         monitors={"C10"},
         mc=[MC_READER],
         runs=[dict(cmd="damage", gen="small:16,batch:6,gc-heavy:6,big:3,names:2", policy="always_flush",
-                   opts={"classes": "payload,crc,hdr,noise,struct", "noise": "200", "struct": "200"},
-                   opts_thorough={"classes": "payload,crc,hdr,noise,struct", "noise": "2000", "struct": "2000", "thorough": True},
+                   opts={"classes": "payload,crc,hdr,noise,struct,hostile", "noise": "200", "struct": "200"},
+                   opts_thorough={"classes": "payload,crc,hdr,noise,struct,hostile", "noise": "2000", "struct": "2000", "thorough": True},
                    thorough_factor=8)],
-        rule="full damage alphabet (overwritten, zeroed, truncated, removed, duplicated, transposed blocks and files, "
+        rule="checksum-valid frames with hostile entries at the end of the log (unknown types, lengths beyond the entry, invalid "
+             "UTF-8, positions at the edge of u64, huge batches of empty records); "
+             "full damage alphabet (overwritten, zeroed, truncated, removed, duplicated, transposed blocks and files, "
              "short / empty files, stray files, sub-directories, symlinks, random blocks, blocks of valid-looking "
              "headers): open under catch_unwind, a 10 s deadline and a counting allocator (peak <= 8 x image + 64 MiB); "
              "all read accessors called on a returned log; non-trivial = damage cases opened",
